@@ -264,7 +264,20 @@ def run_case(case):
             want = vworld.expected_tests(spec, opts)
             want_ids = sorted(t for ts in want.values() for t in ts)
             # ---- real run
-            w = common.run_world(spec, None, dict(opts, verbose=1), root=root)
+            # a sixth of the real runs hand the layers to subprocesses (-j
+            # N, or one after the other behind tear-downs that are not
+            # supported): every subprocess finds its tests again by itself
+            plan = None
+            ropts = dict(opts, verbose=1)
+            r = rng.random()
+            if spec.get('layers') and r < 0.1:
+                ropts['processes'] = rng.randint(2, 3)
+                C('real_runs_in_parallel_subprocesses')
+            elif spec.get('layers') and r < 0.17:
+                plan = {'layers': {ls['name']: {'tearDown': 'nie'}
+                                   for ls in spec['layers']}}
+                C('real_runs_with_resumed_subprocesses')
+            w = common.run_world(spec, plan, ropts, root=root)
             C('real_runs')
             if w.raised is not None:
                 viol.append({'rule': 'run-aborted', 'mech': 'run-raised',
@@ -282,7 +295,7 @@ def run_case(case):
                                'levels': {t: all_tests[t] for t in
                                           sorted(set(ran) ^ set(want_ids))[:5]}
                                }})
-            v, st = oracles.layer_machine(w.events, spec)
+            v, st = oracles.layer_machine(w.events, spec, plan)
             for x in v:
                 x['detail']['opts'] = opts
                 if x['rule'] == 'test-under-wrong-layers':
